@@ -18,4 +18,50 @@ MUTANTS = [
     {"name": "C12-full-one-late", "property": "C12", "edits": [("pkg/gossip/failuredetector.go", "\tif i.isFull {\n\t\ti.sum = i.sum - i.intervals[i.index]\n\t}", "\tif i.isFull && i.index != 0 {\n\t\ti.sum = i.sum - i.intervals[i.index]\n\t}")]},
     {"name": "C12-mean-by-capacity", "property": "C12", "edits": [("pkg/gossip/failuredetector.go", "i.mean = float64(i.sum) / float64(i.size())", "i.mean = float64(i.sum) / float64(len(i.intervals))")]},
     {"name": "C12-no-bootstrap", "property": "C12", "edits": [("pkg/gossip/failuredetector.go", "\t\tw.intervals.Add(w.bootstrapInterval.Nanoseconds())", "\t\tw.intervals.Add(1)")]},
+    # ---- C02
+    {"name": "C02-apply-le-to-lt", "property": "C02", "edits": [("pkg/gossip/state.go", "\t\tif e.Version <= state.Version {\n\t\t\tcontinue\n\t\t}", "\t\tif e.Version < state.Version {\n\t\t\tcontinue\n\t\t}")]},
+    {"name": "C02-delta-from-lt", "property": "C02,C03", "edits": [("pkg/gossip/state.go", "\t\tif entry.Version <= fromVersion {\n\t\t\tcontinue\n\t\t}", "\t\tif entry.Version < fromVersion {\n\t\t\tcontinue\n\t\t}")]},
+    {"name": "C02-delta-unsorted", "property": "C02,C13", "edits": [("pkg/gossip/state.go", "\tsort.Slice(deltaEntry.Entries, func(i, j int) bool {\n\t\treturn deltaEntry.Entries[i].Version < deltaEntry.Entries[j].Version\n\t})\n\n\treturn deltaEntry", "\treturn deltaEntry")]},
+    {"name": "C02-no-local-guard", "property": "C02,C13", "edits": [("pkg/gossip/state.go", "\tif entry.ID == s.localID {\n\t\t// Discard updates about local node.\n\t\treturn\n\t}", "")]},
+    {"name": "C02-compaction-lt", "property": "C02", "edits": [("pkg/gossip/state.go", "if e.Version <= compactVersion {", "if e.Version < compactVersion {")]},
+    {"name": "C02-version-not-advanced-on-skip", "property": "C02", "edits": [("pkg/gossip/state.go", "\t\tstate.Entries[e.Key] = e\n\t\tstate.Version = e.Version", "\t\tstate.Entries[e.Key] = e\n\t\tif !e.Deleted {\n\t\t\tstate.Version = e.Version\n\t\t}")]},
+    # ---- C03
+    {"name": "C03-digest-no-discovery", "property": "C03", "edits": [("pkg/gossip/state.go", "\t\tif entry.Left {\n\t\t\tcontinue\n\t\t}\n\n\t\ts.nodes[entry.ID]", "\t\tif entry.Left || entry.Version > 3 {\n\t\t\tcontinue\n\t\t}\n\n\t\ts.nodes[entry.ID]")]},
+    {"name": "C03-delta-skips-version0", "property": "C03", "edits": [("pkg/gossip/state.go", "\t\tdeltaEntry := s.deltaEntry(entry.ID, entry.Version)", "\t\tif entry.Version == 0 && entry.ID != s.localID {\n\t\t\tcontinue\n\t\t}\n\t\tdeltaEntry := s.deltaEntry(entry.ID, entry.Version)")]},
+    {"name": "C03-digest-omits-self", "property": "C03", "edits": [("pkg/gossip/state.go", "\tfor _, state := range s.nodes {\n\t\tdigest = append(digest, digestEntry{", "\tfor _, state := range s.nodes {\n\t\tif state.ID == s.localID && len(s.nodes) > 2 {\n\t\t\tcontinue\n\t\t}\n\t\tdigest = append(digest, digestEntry{")]},
+    # ---- C04
+    {"name": "C04-lookup-ignores-status", "property": "C04,C11", "edits": [("server/cluster/state.go", "\t\tif node.Status != NodeStatusActive {\n\t\t\t// Ignore unreachable and left nodes.\n\t\t\tcontinue\n\t\t}\n\t\tif listeners, ok", "\t\tif listeners, ok")]},
+    {"name": "C04-lookup-zero-count", "property": "C04", "edits": [("server/cluster/state.go", "ok && listeners > 0 {", "ok && listeners >= 0 {")]},
+    {"name": "C04-compaction-no-delete-notify", "property": "C04,C14", "edits": [("pkg/gossip/state.go", "\t\t\t\t\t\tif !e.Deleted {\n\t\t\t\t\t\t\t// If we didn't already know the entry was deleted,\n\t\t\t\t\t\t\t// notify the watcher.\n\t\t\t\t\t\t\ts.watcher.OnDeleteKey(entry.ID, e.Key)\n\t\t\t\t\t\t}", "")]},
+    {"name": "C04-promote-on-proxy-only", "property": "C04", "edits": [("server/gossip/syncer.go", "if node.ProxyAddr != \"\" && node.AdminAddr != \"\" {", "if node.ProxyAddr != \"\" {")]},
+    {"name": "C04-expired-not-removed", "property": "C04,C11", "edits": [("server/gossip/syncer.go", "\tif removed := s.clusterState.RemoveNode(nodeID); removed {", "\tif removed := false; removed {")]},
+    {"name": "C04-pending-delete-ignored", "property": "C04", "edits": [("server/gossip/syncer.go", "\tif node.Endpoints != nil {\n\t\tdelete(node.Endpoints, endpointID)\n\t}", "")]},
+    {"name": "C04-leave-not-mapped", "property": "C04,C11", "edits": [("server/gossip/syncer.go", "s.clusterState.UpdateRemoteStatus(nodeID, cluster.NodeStatusLeft)", "s.clusterState.UpdateRemoteStatus(nodeID, cluster.NodeStatusUnreachable)")]},
+    # ---- C11
+    {"name": "C11-digest-relearns-left", "property": "C11", "edits": [("pkg/gossip/state.go", "\t\tif entry.Left {\n\t\t\tcontinue\n\t\t}\n\n\t\ts.nodes[entry.ID]", "\t\ts.nodes[entry.ID]")]},
+    {"name": "C11-expiry-not-cleared", "property": "C11", "edits": [("pkg/gossip/state.go", "\t\t\t\tnode.Unreachable = false\n\t\t\t\tnode.Expiry = time.Time{}", "\t\t\t\tnode.Unreachable = false")]},
+    {"name": "C11-expire-one-second-early", "property": "C11", "edits": [("pkg/gossip/state.go", "if !state.Expiry.IsZero() && t.After(state.Expiry) {", "if !state.Expiry.IsZero() && t.After(state.Expiry.Add(-time.Second)) {")]},
+    {"name": "C11-liveness-not-skipping-left", "property": "C11", "edits": [("pkg/gossip/state.go", "if node.ID == s.localID || node.Left {", "if node.ID == s.localID {")]},
+    {"name": "C11-liveness-on-local", "property": "C11", "edits": [("pkg/gossip/state.go", "if node.ID == s.localID || node.Left {", "if node.Left {")]},
+    {"name": "C11-after-to-before", "property": "C11", "edits": [("pkg/gossip/state.go", "t.After(state.Expiry)", "t.Before(state.Expiry)")]},
+    {"name": "C11-left-applied-to-local", "property": "C11,C02", "edits": [("pkg/gossip/state.go", "\tif entry.ID == s.localID {\n\t\t// Discard updates about local node.\n\t\treturn\n\t}", "\tif entry.ID == s.localID {\n\t\tfor _, e := range entry.Entries {\n\t\t\tif e.Internal && e.Key == leftKey {\n\t\t\t\ts.nodes[s.localID].Left = true\n\t\t\t}\n\t\t}\n\t\treturn\n\t}")]},
+    {"name": "C11-leave-no-expiry", "property": "C11", "edits": [("pkg/gossip/state.go", "\t\t\t\tstate.Left = true\n\t\t\t\tstate.Expiry = time.Now().Add(nodeExpiry)", "\t\t\t\tstate.Left = true")]},
+    # ---- C14
+    {"name": "C14-compaction-notify-inverted", "property": "C14", "edits": [("pkg/gossip/state.go", "\t\t\t\t\t\tif !e.Deleted {\n\t\t\t\t\t\t\t// If we didn't", "\t\t\t\t\t\tif e.Deleted {\n\t\t\t\t\t\t\t// If we didn't")]},
+    {"name": "C14-no-join-on-delta-discovery", "property": "C14", "edits": [("pkg/gossip/state.go", "\t\tstate = s.nodes[entry.ID]\n\n\t\ts.watcher.OnJoin(entry.ID)", "\t\tstate = s.nodes[entry.ID]")]},
+    {"name": "C14-tombstone-not-notified", "property": "C14", "edits": [("pkg/gossip/state.go", "\t\t\tif e.Deleted {\n\t\t\t\ts.watcher.OnDeleteKey(entry.ID, e.Key)\n\t\t\t} else {", "\t\t\tif e.Deleted {\n\t\t\t} else {")]},
+    {"name": "C14-no-reachable-notification", "property": "C14", "edits": [("pkg/gossip/state.go", "\t\t\t\ts.watcher.OnReachable(node.ID)", "")]},
+    # ---- C13
+    {"name": "C13-revert-D5", "property": "C13", "edits": [("pkg/gossip/state.go", "\tif !utf8.ValidString(entry.ID) {\n\t\t// Discard updates about nodes with an invalid ID.", "\tif false {\n\t\t// Discard updates about nodes with an invalid ID.")]},
+    {"name": "C13-size-check-ge", "property": "C13", "edits": [("pkg/gossip/protocol.go", "\t\t\tif buf.Len() > maxPacketSize {\n\t\t\t\tbreak\n\t\t\t}\n\t\t\tbufLen = buf.Len()\n\t\t\tentriesSent++", "\t\t\tif buf.Len() >= maxPacketSize {\n\t\t\t\tbreak\n\t\t\t}\n\t\t\tbufLen = buf.Len()\n\t\t\tentriesSent++")]},
+    {"name": "C13-buflen-before-check", "property": "C13", "edits": [("pkg/gossip/protocol.go", "\t\t\tif buf.Len() > maxPacketSize {\n\t\t\t\tbreak\n\t\t\t}\n\t\t\tbufLen = buf.Len()\n\t\t\tentriesSent++", "\t\t\tbufLen = buf.Len()\n\t\t\tif buf.Len() > maxPacketSize {\n\t\t\t\tbreak\n\t\t\t}\n\t\t\tentriesSent++")]},
+    {"name": "C13-digest-sender-off-by-one", "property": "C13", "edits": [("pkg/gossip/gossip.go", "\t\tif buf.Len() > g.config.MaxPacketSize {\n\t\t\tbreak\n\t\t}", "\t\tif buf.Len() > g.config.MaxPacketSize+1 {\n\t\t\tbreak\n\t\t}")]},
+    {"name": "C13-decode-short-count-error", "property": "C13,C03", "edits": [("pkg/gossip/protocol.go", "\t\t\t\tif errors.Is(err, io.EOF) {\n\t\t\t\t\tbreak\n\t\t\t\t}\n\t\t\t\treturn deltaHeader{}, nil, fmt.Errorf(\"decode: %w\", err)\n\t\t\t}\n\n\t\t\tdeltaEntry.Entries", "\t\t\t\treturn deltaHeader{}, nil, fmt.Errorf(\"decode: %w\", err)\n\t\t\t}\n\n\t\t\tdeltaEntry.Entries")]},
+    {"name": "C13-no-min-len-guard", "property": "C13", "edits": [("pkg/gossip/listener.go", "\tif len(b) < 2 {\n\t\treturn fmt.Errorf(\"packet too small: %d\", len(b))\n\t}", "")]},
+    {"name": "C13-node-header-not-counted", "property": "C13", "edits": [("pkg/gossip/protocol.go", "\t\tif buf.Len() > maxPacketSize {\n\t\t\tbreak\n\t\t}\n\t\tbufLen = buf.Len()\n\n\t\tfor _, entry := range deltaEntry.Entries {", "\t\tfor _, entry := range deltaEntry.Entries {")]},
+    # ---- C05
+    {"name": "C05-revert-D1", "property": "C05", "edits": [("server/upstream/manager.go", "\tif !lb.Contains(u) {", "\tif false {")]},
+    {"name": "C05-publish-minus-one", "property": "C05", "edits": [("server/gossip/syncer.go", "\tif listeners > 0 {\n\t\ts.gossiper.UpsertLocal(key, strconv.Itoa(listeners))", "\tif listeners > 1 {\n\t\ts.gossiper.UpsertLocal(key, strconv.Itoa(listeners))")]},
+    {"name": "C05-unlock-before-cluster-update", "property": "C05", "edits": [("server/upstream/manager.go", "\tlb.Add(u)\n\tm.localUpstreams[u.EndpointID()] = lb\n\n\tm.cluster.AddLocalEndpoint(u.EndpointID())\n\n\tm.metrics.ConnectedUpstreams.Inc()\n}", "\tlb.Add(u)\n\tm.localUpstreams[u.EndpointID()] = lb\n\tm.mu.Unlock()\n\n\tm.cluster.AddLocalEndpoint(u.EndpointID())\n\n\tm.metrics.ConnectedUpstreams.Inc()\n\tm.mu.Lock()\n}")]},
+    {"name": "C05-remove-only-last-withdraws", "property": "C05", "edits": [("server/upstream/manager.go", "\tm.cluster.RemoveLocalEndpoint(u.EndpointID())\n\n\tm.metrics.ConnectedUpstreams.Dec()", "\tif _, still := m.localUpstreams[u.EndpointID()]; !still {\n\t\tm.cluster.RemoveLocalEndpoint(u.EndpointID())\n\t}\n\n\tm.metrics.ConnectedUpstreams.Dec()")]},
 ]
